@@ -172,23 +172,31 @@ def r3(ctx):
 
 def r4(ctx):
     ctx.rule('C06.R4', 'ValueListDataField::writeSymbols compares the text with every value name before it interprets it as a '
-             'raw number (decoding prints names, and a name may itself look like a number), and accepts a raw number only if '
-             'it is a key of the list', minimum=2)
+             'raw number (decoding prints names, and a name may itself look like a number): the lookup of a parsed number among '
+             'the keys (m_values.find) is reached only behind the scan over the names (a loop over the entries or std::find_if '
+             'comparing .second), and a raw number is accepted only if it is a key of the list', minimum=2)
     fb = ctx.fb
     fn = fb.fn('ebusd::ValueListDataField::writeSymbols')
     ctx.touch(fn)
     parses = fn.calls('strtoul', 'strtol', 'ebusd::parseInt', suffix=False)
-    loops = fn.all('CXXForRangeStmt', 'ForStmt', 'WhileStmt')
-    name_cmp = [b.id for b in fn.blocks.values() if b.cond is not None and '.second' in fn.key(b.cond) and '==' in fn.key(b.cond)]
-    if not parses or not name_cmp:
-        raise AnalysisBroken('C06.R4: name comparison or numeric fallback not found')
-    # loop exit blocks: blocks testing the range-for condition
+    # the scan over the names
     loopconds = [b.id for b in fn.blocks.values() if b.cond is not None and '__begin' in fn.key(b.cond)]
-    for p in parses:
-        ok = bool(loopconds) and fn.block_of(p) not in fn.reach([fn.entry], cut_blocks=loopconds)
-        ctx.ob('C06.R4', fn, p, ok, 'numeric fallback after the name lookup', 'reachable only through the loop over the value names: %s' % ok)
+    name_cmp = [b.id for b in fn.blocks.values() if b.cond is not None and '.second' in fn.key(b.cond) and '==' in fn.key(b.cond)]
+    scans = set(c for c in fn.all('CallExpr') if (fn.nodes[c].get('callee') or '').startswith('std::find_if') and
+                any('this.m_values' in fn.key(a) for a in fn.nodes[c].get('args', [])))
+    keylook = [c for c in fn.all('CXXMemberCallExpr') if (fn.nodes[c].get('callee') or '').split('::')[-1] == 'find' and
+               fn.key(fn.nodes[c].get('obj', -1)) == 'this.m_values']
+    if not parses or not keylook or not ((loopconds and name_cmp) or scans):
+        raise AnalysisBroken('C06.R4: scan over the names, numeric parse or key lookup not found')
+    for k in keylook:
+        if loopconds and name_cmp:
+            ok = fn.block_of(k) not in fn.reach([fn.entry], cut_blocks=loopconds)
+        else:
+            ok = not fn.reaches_point(fn.entry, fn.pos(k), scans)
+        ctx.ob('C06.R4', fn, k, ok, 'key lookup of a parsed number', 'reached only behind the scan over the value names: %s' % ok)
     writes = [c for c in fn.calls('ebusd::NumberDataType::writeRawValue', suffix=False)]
-    okk = any('m_values.find(' in k and not pol for c in writes for k, pol in ((a[0], a[1]) for a in fn.atoms(c)))
+    okk = any(('m_values.find(' in k_ and not pol) or ('m_values.end()' in k_ and not pol) for c in writes
+              for k_, pol in ((a[0], a[1]) for a in fn.atoms(c)))
     ctx.ob('C06.R4', fn, fn.body, okk, 'raw number must be a key', 'membership test before writing a raw number: %s' % okk)
 
 
@@ -249,8 +257,12 @@ def boundary_rule(ctx, rid):
                     sigkey = k3
     if sigkey is None:
         raise AnalysisBroken('%s: signed parse branch of parseInput not found' % rid)
-    for fname in ('ebusd::NumberDataType::parseInput', 'ebusd::NumberDataType::getRawValueFromFloat'):
-        total += _boundary_fn(ctx, rid, fb.fn(fname), sigkey)
+    seen = set()
+    for f in fb.functions:
+        if f.cls != 'ebusd::NumberDataType' or not f.blocks or (f.name, f.sig) in seen:
+            continue
+        seen.add((f.name, f.sig))
+        total += _boundary_fn(ctx, rid, f, sigkey)
     if total < 6:
         raise AnalysisBroken('%s: only %d range tests recognised' % (rid, total))
 
@@ -307,6 +319,10 @@ def _boundary_fn(ctx, rid, fn, sigkey):
             return ev(v['then'] if c else v['else'], env)
         if k in ('CallExpr', 'CXXMemberCallExpr'):
             cal = (v.get('callee') or '').split('::')[-1]
+            if cal == 'hasFlag' and '__sig' in env and sigkey and fn.key(x) == sigkey:
+                return bool(env['__sig'])
+            if cal in ('isnan', 'isinf'):
+                return False
             args = [ev(a, env) for a in v.get('args', [])]
             if cal in ('fabs', 'abs', 'labs', 'llabs', 'fabsf') and args and args[0] is not None:
                 return abs(args[0])
@@ -346,42 +362,46 @@ def _boundary_fn(ctx, rid, fn, sigkey):
             continue
         wd = used[0]
         atoms = dict((a[0], a[1]) for a in fn.atoms(p))
-        sig = atoms.get(sigkey) if sigkey else None
-        if sig is None:
+        sig0 = atoms.get(sigkey) if sigkey else None
+        mentions_sig = sigkey and any(sigkey == fn.key(y) for y in fn.walk(cond)) or any(
+            fn.nodes[y].get('k') == 'DeclRefExpr' and any(d2 == fn.nodes[y].get('decl') and r2 is not None and sigkey and sigkey in fn.key(r2)
+                                                          for _, d2, r2, _, _ in fn.assignments()) for y in fn.walk(cond))
+        if sig0 is None and not mentions_sig:
             continue
-        n += 1
-        # declared locals of the condition (e.g. max = exp2(m_bitCount - 1)) are resolved through their initialiser
-        problems = []
-        for bits_ in (8, 16, 32):
-            if ('(this.m_bitCount == #32)', False) in atoms.items() and bits_ == 32:
-                continue
-            lo, hi = (-(2 ** (bits_ - 1)), 2 ** (bits_ - 1) - 1) if sig else (0, 2 ** bits_ - 1)
-            for val in (lo - 2, lo - 1, lo, lo + 1, hi - 1, hi, hi + 1, hi + 2):
-                env = {wd: val, 'm_bitCount': bits_}
-                for nid, d, rhs, op, lhs in fn.assignments():
-                    if op == 'init' and d and d not in wide and rhs is not None and \
-                            any(fn.nodes[x].get('k') == 'DeclRefExpr' and fn.nodes[x].get('decl') == d for x in fn.walk(cond)):
-                        env[d] = ev(rhs, dict(env))
-                rej = ev(cond, env)
-                # values that cannot reach this test (a dominating test on the same variable sends them elsewhere, e.g. to
-                # another error return) count as rejected
-                import re as _re
-                for a_ in fn.atoms(p):
-                    m_ = _re.match(r'^\(%s (<|<=|==) (?:#(-?\d+)|f(-?[\d.]+))\)$' % _re.escape(wide[wd]), a_[0])
-                    if m_:
-                        c_ = int(m_.group(2)) if m_.group(2) is not None else float(m_.group(3))
-                        holds = {'<': val < c_, '<=': val <= c_, '==': val == c_}[m_.group(1)]
-                        if holds != bool(a_[1]):
-                            rej = True
-                want = val < lo or val > hi
-                if not sig and val < 0 and 'unsigned long' in ''.join((fn.nodes[x].get('t') or '') for x in fn.walk(cond) if fn.nodes[x].get('decl') == wd):
-                    continue    # an unsigned long cannot hold a negative value: the sign is tested on the text (C07.R6)
-                if rej is None:
-                    rej = False
-                if bool(rej) != want:
-                    problems.append('%d-bit %s value %d is %s' % (bits_, 'signed' if sig else 'unsigned', val, 'rejected' if rej else 'accepted'))
-        ctx.ob(rid, fn, p, not problems, '%s range test of %s' % ('signed' if sig else 'unsigned', wide[wd]),
-               '; '.join(problems[:4]) or 'rejects exactly the values outside the n-bit range (24 boundary points)')
+        for sig in ([sig0] if sig0 is not None else [True, False]):
+          n += 1
+          # declared locals of the condition (e.g. max = exp2(m_bitCount - 1)) are resolved through their initialiser
+          problems = []
+          for bits_ in (8, 16, 32):
+              if ('(this.m_bitCount == #32)', False) in atoms.items() and bits_ == 32:
+                  continue
+              lo, hi = (-(2 ** (bits_ - 1)), 2 ** (bits_ - 1) - 1) if sig else (0, 2 ** bits_ - 1)
+              for val in (lo - 2, lo - 1, lo, lo + 1, hi - 1, hi, hi + 1, hi + 2):
+                  env = {wd: val, 'm_bitCount': bits_, '__sig': sig}
+                  for nid, d, rhs, op, lhs in fn.assignments():
+                      if op == 'init' and d and d not in wide and rhs is not None and \
+                              any(fn.nodes[x].get('k') == 'DeclRefExpr' and fn.nodes[x].get('decl') == d for x in fn.walk(cond)):
+                          env[d] = ev(rhs, dict(env))
+                  rej = ev(cond, env)
+                  # values that cannot reach this test (a dominating test on the same variable sends them elsewhere, e.g. to
+                  # another error return) count as rejected
+                  import re as _re
+                  for a_ in fn.atoms(p):
+                      m_ = _re.match(r'^\(%s (<|<=|==) (?:#(-?\d+)|f(-?[\d.]+))\)$' % _re.escape(wide[wd]), a_[0])
+                      if m_:
+                          c_ = int(m_.group(2)) if m_.group(2) is not None else float(m_.group(3))
+                          holds = {'<': val < c_, '<=': val <= c_, '==': val == c_}[m_.group(1)]
+                          if holds != bool(a_[1]):
+                              rej = True
+                  want = val < lo or val > hi
+                  if not sig and val < 0 and 'unsigned long' in ''.join((fn.nodes[x].get('t') or '') for x in fn.walk(cond) if fn.nodes[x].get('decl') == wd):
+                      continue    # an unsigned long cannot hold a negative value: the sign is tested on the text (C07.R6)
+                  if rej is None:
+                      rej = False
+                  if bool(rej) != want:
+                      problems.append('%d-bit %s value %d is %s' % (bits_, 'signed' if sig else 'unsigned', val, 'rejected' if rej else 'accepted'))
+          ctx.ob(rid, fn, p, not problems, '%s range test of %s' % ('signed' if sig else 'unsigned', wide[wd]),
+                 '; '.join(problems[:4]) or 'rejects exactly the values outside the n-bit range (24 boundary points)')
     return n
 
 
